@@ -12,9 +12,11 @@
 // operator would): two capture routes (before and after the real route in table
 // order), a real sendAllMatch route whose destination is a recording loopback
 // endpoint, a mocked aggregator that sees every line and — in half of the tables —
-// a drop-raw aggregator. Both aggregators are *held* (their run loop is parked
-// flushing into a channel nobody reads yet) while the lines are dispatched, so
-// they provably still hold the line when the input buffer is reused.
+// a drop-raw aggregator. In three tables of four both aggregators are *held*
+// (their run loop is parked flushing into a channel nobody reads yet) while the
+// lines are dispatched, so they provably still hold the line when the input
+// buffer is reused; in the fourth they run concurrently with the feed, which is
+// where the race detector can see an unsynchronised reuse (RACE_SCOPE C04).
 //
 // Two feeders:
 //
@@ -85,6 +87,7 @@ type c04case struct {
 	Conns   int                  `json:"connections,omitempty"`
 	DropAgg bool                 `json:"with_dropraw_aggregator"`
 	Cache   bool                 `json:"aggregator_cache"`
+	Held    bool                 `json:"aggregators_held_during_feed"`
 	lines   []*lineSpec
 	fx      stats // rule effects, from the oracle's point of view (for the evidence)
 }
@@ -266,9 +269,10 @@ func genCase(seed uint64, idx int) *c04case {
 	}
 	c.DropAgg = r.Bool()
 	c.Cache = r.Bool()
-	c.NLines = mon.N(200, 500)
+	c.Held = idx%4 != 3 // one table in four lets the aggregators run concurrently with the feed (race detector's turn)
+	c.NLines = mon.N(200, 400)
 	if c.Mode == "tcp" {
-		c.NLines = mon.N(400, 900)
+		c.NLines = mon.N(400, 700)
 	}
 	rw, err := oracle.CompileRules(c.Rules)
 	if err != nil {
@@ -333,7 +337,7 @@ func (c *c04case) toml() string {
 
 func (c *c04case) witness(l *lineSpec) map[string]interface{} {
 	w := map[string]interface{}{"case": c.Index, "mode": c.Mode, "validation_level_legacy": c.Legacy, "validation_level_m20": c.M20,
-		"rewriters": c.Rules, "rewriters_added_by_init_cmd": c.ViaCmd, "with_dropraw_aggregator": c.DropAgg}
+		"rewriters": c.Rules, "rewriters_added_by_init_cmd": c.ViaCmd, "with_dropraw_aggregator": c.DropAgg, "aggregators_held_during_feed": c.Held}
 	if l != nil {
 		w["line_id"] = l.ID
 		w["line_sent"] = fmt.Sprintf("%q", l.Raw)
@@ -588,6 +592,11 @@ func runCase(res *mon.Result, c *c04case, st *stats) {
 		aggs = append(aggs, agg2)
 	}
 	for _, h := range aggs {
+		if !c.Held {
+			h.a.AddMaybe([][]byte{[]byte("c04primer.zq"), []byte("1"), []byte("1499999500")}, 1, 1499999500)
+			h.release()
+			continue
+		}
 		if !h.hold(res) {
 			res.Inconclusive(fmt.Sprintf("case %d: aggregator primer was not taken in", c.Index))
 			return
@@ -692,7 +701,9 @@ func runCase(res *mon.Result, c *c04case, st *stats) {
 		}
 	}
 	for _, h := range aggs {
-		h.release()
+		if c.Held {
+			h.release()
+		}
 	}
 	agg1.drain(res, fmt.Sprintf("case %d agg1", c.Index))
 	if agg2 != nil {
@@ -946,11 +957,11 @@ func main() {
 	debug.SetGCPercent(400) // every destination connection allocates ~7 MB of pointer slices; collect less often
 	mon.InitRepo()
 	res := mon.NewResult("C04")
-	res.Rule = "tables generated from (seed,index): validation levels {none,medium,strict}x{none,medium} written as configuration text; 0-4 rewriters (literal with max in {-1,0,1,2,3,7}, /regex/ with ${n}, $n, named groups, empty matches; not-clause absent / substring / /regex/) added through [[rewriter]] sections or addRewriter init commands; lines valid by construction for the chosen levels: names over a small token set with repeats (plus metrics2.0 names, leading dots, empty nodes, regex/template metacharacters, 8-bit bytes where the level allows), 30 value spellings, 9 timestamp spellings, whitespace layouts from single blanks to tabs / runs / leading / trailing / VT FF CR. two thirds of the tables are fed by Table.Dispatch from one reused arena (overwritten with 0xAA after every call), one third by the real Listener+Plain handler over 1-3 concurrent TCP connections. non-trivial table = at least 10 lines whose name was changed by rewriting AND whose layout was not canonical AND that were seen byte-identical by both capture routes, the destination endpoint and the held aggregator"
+	res.Rule = "tables generated from (seed,index): validation levels {none,medium,strict}x{none,medium} written as configuration text; 0-4 rewriters (literal with max in {-1,0,1,2,3,7}, /regex/ with ${n}, $n, named groups, empty matches; not-clause absent / substring / /regex/) added through [[rewriter]] sections or addRewriter init commands; lines valid by construction for the chosen levels: names over a small token set with repeats (plus metrics2.0 names, leading dots, empty nodes, regex/template metacharacters, 8-bit bytes where the level allows), 30 value spellings, 9 timestamp spellings, whitespace layouts from single blanks to tabs / runs / leading / trailing / VT FF CR. two thirds of the tables are fed by Table.Dispatch from one reused arena (overwritten with 0xAA after every call), one third by the real Listener+Plain handler over 1-3 concurrent TCP connections; in three tables of four the aggregators are held (parked in a flush) during the feed and released afterwards, in the fourth they run concurrently with it. non-trivial table = at least 10 lines whose name was changed by rewriting AND whose layout was not canonical AND that were seen byte-identical by both capture routes, the destination endpoint and the held aggregator"
 	res.Assume("tokens are the maximal runs of non-whitespace the harness wrote; whitespace is ASCII blank, TAB, VT, FF, CR, LF")
 	res.Assume("lines missing at the destination are C05/C06's subject: here they make the run inconclusive unless counted as dropped")
 	res.Assume("the aggregator is observed through its output key (name it processed), timestamp and value formatted with %f")
-	n := mon.N(200, 5000)
+	n := mon.N(200, 2000)
 	if v, err := strconv.Atoi(os.Getenv("C04_LIMIT")); err == nil && v > 0 && v < n {
 		n = v // monitor validation against mutants only: fewer tables (the floors then fail unless something fired)
 	}
@@ -1013,9 +1024,9 @@ func main() {
 	res.Count("regex_rule_applications_that_changed_the_name", st.regexChanged)
 	res.Count("literal_rule_applications_that_changed_the_name", st.literalChanged)
 	res.Floor("tables", ran, n)
-	res.Floor("capture_route_deliveries", st.delivered, n*mon.N(200, 500)*2*8/10)
-	res.Floor("destination_lines_received", st.destLines, n*mon.N(200, 500)*7/10)
-	res.Floor("aggregation_outputs", st.aggOut, n*mon.N(200, 500)*8/10)
+	res.Floor("capture_route_deliveries", st.delivered, n*mon.N(200, 400)*2*8/10)
+	res.Floor("destination_lines_received", st.destLines, n*mon.N(200, 400)*7/10)
+	res.Floor("aggregation_outputs", st.aggOut, n*mon.N(200, 400)*8/10)
 	res.Floor("nontrivial_tables", nontrivial, n/4)
 	res.Write()
 }
